@@ -149,6 +149,17 @@ def run_case(tree, spec, extra, cfgname, earlier=()):
     L = tree.levelmax
     Lstar = max(l for l in range(1, L + 1) if level_accepts(spec, l))
     sel = {"level": level_pred(spec)}
+    holder = None
+    if form.startswith("one-callable"):
+        # every load of this case (the earlier ones too) is given the SAME function object, which reads the levels to accept from a
+        # variable that is changed between the loads
+        holder = {"spec": tuple(spec), "fresh_datasets": form.endswith("fresh-datasets")}
+
+        def shared_pred(l):
+            return level_pred(tuple(holder["spec"]))(l)
+
+        sel["level"] = shared_pred
+        form = ""
     if form:
         # the level predicate given as another kind of callable than a lambda
         from . import C04
@@ -181,7 +192,15 @@ def run_case(tree, spec, extra, cfgname, earlier=()):
             if earlier:
                 ds = _load.new_dataset(d, out.nout)
                 for e_spec in earlier:
+                    if holder is not None and e_spec is not None:
+                        holder["spec"] = tuple(e_spec)
+                        _load.call_load(ds, select={"mesh": {"level": sel["level"]}})
+                        if holder["fresh_datasets"]:
+                            ds = _load.new_dataset(d, out.nout)
+                        continue
                     _load.call_load(ds, **({} if e_spec is None else {"select": {"mesh": {"level": level_pred(tuple(e_spec))}}}))
+                if holder is not None:
+                    holder["spec"] = tuple(spec)
                 text = _load.call_load(ds, select={"mesh": sel})
             else:
                 # other groups named in the same select dictionary, before or after "mesh"
@@ -309,6 +328,9 @@ def cases(thorough):
             for earlier, spec in (([None], ("le", L - 1)), ([["le", L - 1]], ("le", L)), ([["le", 1]], ("between", 0, L + 1)), ([["le", L]], ("le", 1)),
                                   ([None, ["le", 1]], ("le", L - 1)), ([["eq", L]], ("le", L - 1))):
                 yield label, t, spec, "none", "1cpu", earlier
+                if any(e is not None for e in earlier):
+                    yield label, t, spec, "none:one-callable", "1cpu", earlier
+                    yield label, t, spec, "none:one-callable-fresh-datasets", "1cpu", earlier
     # the level predicate next to entries for other groups in the select dictionary (output with particles and sinks)
     for others in ("after", "before", "after-flags"):
         for label, trees in fams:
